@@ -42,10 +42,11 @@ type (
 		T *TypeExpr
 	}
 	EQuant struct {
-		Forall   bool
-		Vars     []QVar
-		Body     Expr
-		Patterns [][]Expr
+		Forall    bool
+		Vars      []QVar
+		Body      Expr
+		Patterns  [][]Expr
+		Witnesses []Expr // candidate witnesses for the (single) variable of an existential
 	}
 	ESetLit struct{ Elems []Expr }
 	ECond   struct{ C, A, B Expr }
@@ -312,13 +313,14 @@ func (p *parser) parseQuant() Expr {
 	}
 	p.expect("::")
 	var pats [][]Expr
+	var witnesses []Expr
 	for p.isOp("{") && p.toks[p.p+1].kind == "op" && p.toks[p.p+1].text == ":" {
 		// {:pattern e1, e2}
 		p.next()
 		p.next()
 		kw := p.next()
-		if kw.text != "pattern" {
-			panic(fmt.Errorf("expected pattern at %d", kw.pos))
+		if kw.text != "pattern" && kw.text != "witness" {
+			panic(fmt.Errorf("expected pattern or witness at %d", kw.pos))
 		}
 		var pat []Expr
 		for {
@@ -328,10 +330,14 @@ func (p *parser) parseQuant() Expr {
 			}
 		}
 		p.expect("}")
-		pats = append(pats, pat)
+		if kw.text == "witness" {
+			witnesses = append(witnesses, pat...)
+		} else {
+			pats = append(pats, pat)
+		}
 	}
 	body := p.parseExpr(0)
-	return EQuant{Forall: q.text == "forall", Vars: vars, Body: body, Patterns: pats}
+	return EQuant{Forall: q.text == "forall", Vars: vars, Body: body, Patterns: pats, Witnesses: witnesses}
 }
 
 func (p *parser) parseType() *TypeExpr {
@@ -583,6 +589,7 @@ type FuncContract struct {
 	Trusted     bool
 	Inline      bool
 	Pure        bool // no heap effect at all
+	NoSafety    bool // the zero-annotation safety sweep is not claimed for this function
 	RecvName    string
 	ParamNames  []string // including receiver first, if any
 	ResultNames []string
@@ -667,7 +674,7 @@ var declKeywords = map[string]bool{
 	"import": true, "ghost": true, "pure": true, "axiom": true, "func": true, "extern": true,
 	"requires": true, "ensures": true, "modifies": true, "allocates": true, "loop": true, "invariant": true,
 	"inline": true, "trusted": true, "monitor": true, "guards": true, "atomics": true, "heappure": true,
-	"iterates": true, "nomod": true, "ghostset": true, "iface": true, "iter": true, "callsvia": true, "fparam": true, "endfparam": true,
+	"iterates": true, "nomod": true, "ghostset": true, "iface": true, "iter": true, "callsvia": true, "fparam": true, "endfparam": true, "nosafety": true,
 }
 
 // logicalLines extracts //@ lines and joins continuation lines (those not starting with a keyword).
@@ -1042,6 +1049,10 @@ func ParseContractFile(path, pkgPath, text string) (*ContractFile, error) {
 		case "inline":
 			if cur != nil {
 				cur.Inline = true
+			}
+		case "nosafety":
+			if cur != nil {
+				cur.NoSafety = true
 			}
 		case "trusted":
 			if cur != nil {
